@@ -192,6 +192,9 @@ func (c *conn) receive() (err error) {
 		switch length, index, ok := parseHeader(buffer[:8]); {
 		case length == 0 && index == -1 && !ok:
 			err = core.InvalidResponseError{}
+		case length != n-8:
+			// declared length and datagram disagree: neither pad nor truncate
+			err = core.InvalidResponseError{}
 		default:
 			body := make([]byte, length)
 			copy(body, buffer[8:])
